@@ -687,7 +687,10 @@ impl Channel {
             None
         } else if next_commit_num == commitment_number + 1 {
             state.current_counterparty_point
-        } else if next_commit_num == commitment_number {
+        } else if next_commit_num == commitment_number + 2
+            && state.previous_counterparty_point.is_some()
+        {
+            // the previous commitment, possibly not revoked yet (no secret to derive the point from)
             state.previous_counterparty_point
         } else if let Some(secrets) = state.counterparty_secrets.as_ref() {
             let secret = secrets.get_secret(INITIAL_COMMITMENT_NUMBER - commitment_number);
